@@ -325,6 +325,16 @@ def check_all_statements_compiled(ctx, rule, cr):
     ctx.touch(f)
     acc = [c for c in f.calls() if c.name.endswith("lang::ast::AcceptVisitor>::accept")
            and "Statement" in c.name]
+    if not acc:
+        # `ast.iter().for_each(|s| s.accept(..))`: for_each cannot stop early
+        inner = [g for g in cr.closures_of(f.path)
+                 if any(c.name.endswith("lang::ast::AcceptVisitor>::accept") and "Statement" in c.name
+                        for c in g.calls())]
+        fe = f.calls_matching(r"Iterator::for_each$")
+        if inner and fe:
+            ctx.ok(rule, "Visitor::accept/every-statement-compiled", fe[0].span,
+                   "the statements are visited with Iterator::for_each, which has no early exit")
+            return
     if not ctx.check(len(acc) == 1, rule, "Visitor::accept/statement-loop", f.span,
                      "one loop visits the statements of the line"):
         return
